@@ -7,7 +7,7 @@ use crate::common::m3::*;
 use crate::common::par;
 use crate::common::robots::*;
 use crate::common::stack::*;
-use rs_opw_kinematics::kinematic_traits::{Joints, Kinematics};
+use rs_opw_kinematics::kinematic_traits::Joints;
 use rs_opw_kinematics::parameters::opw_kinematics::Parameters;
 use serde_json::{json, Value};
 use std::f64::consts::PI;
